@@ -1,6 +1,6 @@
 SPECIFICATION Spec
 CONSTANTS
-  MaxCh = 9
+  MaxCh = 8
   MaxMut = 1
-  MutDocs = 7
+  MutDocs = 6
 INVARIANTS RoundTrip ReEncode StripIdem DecTotal DecSound EmitInv
